@@ -102,6 +102,15 @@ func NewBatchSpanProcessor(exporter SpanExporter, options ...BatchSpanProcessorO
 	for _, opt := range options {
 		opt(&o)
 	}
+	// Negative sizes, whether they come from an option or from the
+	// OTEL_BSP_* environment variables, are invalid and would make the
+	// allocations below panic: ignore them in favor of the defaults.
+	if o.MaxQueueSize < 0 {
+		o.MaxQueueSize = DefaultMaxQueueSize
+	}
+	if o.MaxExportBatchSize < 0 {
+		o.MaxExportBatchSize = DefaultMaxExportBatchSize
+	}
 	bsp := &batchSpanProcessor{
 		e:      exporter,
 		o:      o,
